@@ -178,18 +178,31 @@ Proof.
   - destruct m; try destruct (in_rangeb k s); cbn [bind]; rewrite ?bind_doc_arith_store; reflexivity.
 Qed.
 
-Lemma increment_is_add g m k v s :
-  inc_i8 g = true -> inc_strict_const g = true -> in_range Int s ->
-  increment g m (VInt k v) (VInt Int s, true) = binop m Add (VInt k v, false) (VInt Int s, true).
+(* the fused instruction is the unfused sequence, for ALL values (integers, bools, strings), steps and modes *)
+Lemma incr_sum_is_arith g v1 v2 :
+  inc_i8 g = true -> inc_like_store g = true -> incr_sum g v1 v2 = arith Add v1 v2.
 Proof.
-  intros G1 G2 Rs. pose proof (in_range_in64 _ _ Rs) as Bs.
-  unfold increment, binop, normalize. rewrite G1, G2. cbn [kind_of is_numeric].
-  rewrite !kind_eqb_KI.
-  destruct m; cbn [is_strict negb orb andb xorb];
-    (destruct (ikind_eqb k Int); cbn [bind fst snd arith coerce negb orb andb xorb];
-     rewrite ?andb_false_r; [reflexivity|]);
-    try rewrite (lossless_int _ _ _ Bs); try destruct (in_rangeb k s);
-    cbn [bind fst snd arith]; rewrite ?andb_false_r; reflexivity.
+  intros G1 G3. unfold incr_sum, arith. rewrite G1, G3.
+  destruct v1, v2; rewrite ?andb_false_r; reflexivity.
+Qed.
+
+Lemma increment_is_add_store g m v step :
+  inc_i8 g = true -> inc_strict_const g = true -> inc_like_store g = true ->
+  increment g m v step = bind (binop m Add (v, false) step) (fun r => store m v (r, false)).
+Proof.
+  intros G1 G2 G3. destruct step as [inc ic]. unfold increment, binop. rewrite G2, G3.
+  cbn [orb negb andb].
+  assert (Hs : forall p : value * value,
+             bind (incr_sum g (fst p) (snd p)) (fun s => store m v (s, false))
+             = bind (arith Add (fst p) (snd p)) (fun r => store m v (r, false))).
+  { intros p. rewrite incr_sum_is_arith by assumption. reflexivity. }
+  destruct (is_strict m) eqn:Em; cbn [negb orb andb].
+  - destruct ic; cbn [negb andb].
+    + destruct (normalize v false inc true true) as [p| |]; cbn [bind]; [apply Hs|reflexivity|reflexivity].
+    + destruct (kind_eqb (kind_of v) (kind_of inc)) eqn:E; cbn [negb bind].
+      * unfold normalize. rewrite E. cbn [bind]. apply (Hs (v, inc)).
+      * reflexivity.
+  - destruct (normalize v false inc ic false) as [p| |]; cbn [bind]; [apply Hs|reflexivity|reflexivity].
 Qed.
 
 Lemma forms_match_doc m opt f k v :
@@ -205,9 +218,7 @@ Proof.
   assert (Hinc : form_op f = Add ->
                  increment cfg_now m (VInt k v) (form_step cfg_now f)
                  = doc_binop m Add k false v Int true (form_step_value f)).
-  { intros _. replace (form_step cfg_now f) with (VInt Int (form_step_value f), true) by (destruct f; reflexivity).
-    rewrite increment_is_add by (try reflexivity; assumption).
-    apply binop_matches_doc; assumption. }
+  { intros Ef. rewrite increment_is_add_store by reflexivity. rewrite <- Ef. exact Hgen. }
   unfold exec_form. destruct (form_op f) eqn:Ef, opt; try exact Hgen.
   apply Hinc. reflexivity.
 Qed.
@@ -327,10 +338,13 @@ Lemma increment_strict_relaxed g v step r :
 Proof.
   destruct step as [inc ic]. unfold increment. cbn [is_strict negb orb].
   intros H. apply bind_ok in H. destruct H as (p & H1 & H2).
+  apply bind_ok in H2. destruct H2 as (s & H2 & H3).
+  assert (H3' : (if inc_like_store g then store Relaxed v (s, false) else Ok s) = Ok r).
+  { destruct (inc_like_store g); [apply store_strict_relaxed|]; exact H3. }
   destruct (inc_strict_const g && ic).
-  - apply normalize_strict_relaxed in H1. rewrite H1. exact H2.
+  - apply normalize_strict_relaxed in H1. rewrite H1. cbn [bind]. rewrite H2. exact H3'.
   - destruct (kind_eqb (kind_of v) (kind_of inc)) eqn:E; [|discriminate].
-    unfold normalize. rewrite E. injection H1 as <-. exact H2.
+    unfold normalize. rewrite E. injection H1 as <-. cbn [bind]. rewrite H2. exact H3'.
 Qed.
 
 Lemma exec_form_strict_relaxed g opt f xv r :
